@@ -95,8 +95,13 @@ def py_ladder(run):
                "ci": z3.Int("ci_raw")}
         st.pc.extend(CT._sorted(vs) + [cpos >= 0, cpos <= 3])
         outs = ex.exec_block(st, loop.body, env)
-        if len(outs) != 1 or outs[0][1] != "normal":
-            raise CheckerError("python ladder: expected a single merged outcome, got %d" % len(outs))
+        if any(o[1] not in ("normal", "continue") for o in outs):
+            raise CheckerError("python ladder: loop body leaves the loop (%s)" % [o[1] for o in outs])
+        if len(outs) > 1:
+            mg = ex.merge([(o[0], o[3]) for o in outs])
+            if mg is None:
+                raise CheckerError("python ladder: cannot merge %d paths" % len(outs))
+            outs = [(mg[0], "normal", None, mg[1])]
         s2, _, _, env2 = outs[0]
         out[value] = (z3.simplify(env2["sum_value"] - z3.Real("sum0")), vs, om, cpos)
         run.functions.append({"file": PYF, "function": "%s._get_integration_weight_py[%s] (loop body)" % (CLS, value),
